@@ -5,11 +5,12 @@ C08 - every docstring renders; markup errors degrade to plain text.  Decides the
   R08.3 every to_stan()/to_node() call site: the failure it can produce is stopped before a run entry
   R08.4 fallbacks handed to safe_to_stan cannot themselves raise
   R08.5 get_summary / get_toc guards
-  R08.6 errors are reported once per object
+  R08.6 a report is skipped only when that very problem was reported before; the registry of objects with problems is keyed by qualified name
   R08.7 the context handed to a fallback that re-reads ctx.docstring is the object that owns the docstring
   R08.8 'fatal' means every epytext error that stops the parse (quantifier of is_fatal)
   R08.9 the fallback of Field.format shows the text of the field
   R08.10 the reST parser restores docutils' process-global role table after each docstring
+  R08.11 a memoised conversion (to_node) does not keep a half-built result when the conversion raises
 Does not decide: parser termination, docutils recovery, byte-for-byte equality of the plain text shown.
 """
 from __future__ import annotations
@@ -281,6 +282,7 @@ def run(repo: Repo, chk: Check, thorough: bool = False) -> None:
     chk.ob('R08.5', f'{PD}.get_toc :: to_node() guarded', ok,
            'NotImplementedError handled' if ok else 'get_toc calls to_node() without handling NotImplementedError', gt.loc)
 
+    check_r08_11(repo, chk)
     # ---------------------------------------------------------------- R08.6
     # "the problem is reported against that object": a de-duplication of reports (the same docstring is parsed and rendered several times) may drop a
     # problem that WAS reported, never a different problem of an object that has one report already - a renderer failure after a parser warning.
@@ -352,3 +354,44 @@ def run(repo: Repo, chk: Check, thorough: bool = False) -> None:
            'differently and its unknown-role error is no longer reported ("no other object is affected" does not hold)', repo.loc(rp.mod, pubs[0]))
     chk.require('R08.10', 1)
 
+
+
+def check_r08_11(repo: Repo, chk: Check) -> None:
+    # `to_node()` memoises its document in an attribute.  Where the attribute is given a fresh (empty) document BEFORE the conversion runs, a
+    # conversion that raises must take it back: otherwise the first caller sees the error and every later caller gets the empty document - the
+    # summary is computed first in a run, so the body of the docstring is an empty <div>, nothing is reported and the text is lost
+    n = 0
+    for f in sorted(repo.funcs.values(), key=lambda g: g.qn):
+        if f.name != 'to_node' or f.cls is None or '.test' in f.mod.name:
+            continue
+        memo_tests = [i for i in f.walk() if isinstance(i, ast.If) and any(isinstance(r, ast.Return) for r in i.body) and
+                      any(isinstance(x, ast.Attribute) and dotted(x.value) == 'self' for x in ast.walk(i.test))]
+        if not memo_tests:
+            continue
+        memo = next(x.attr for x in ast.walk(memo_tests[0].test) if isinstance(x, ast.Attribute) and dotted(x.value) == 'self')
+        cfg = CFG(f)
+        early = [a for a in f.walk() if isinstance(a, ast.Assign) and any(isinstance(t, ast.Attribute) and t.attr == memo and dotted(t.value) == 'self' for t in a.targets) and
+                 not (isinstance(a.value, ast.Constant) and a.value.value is None)]
+        if not early:
+            continue
+        first = min(early, key=lambda a: a.lineno)
+        after = [c for c in calls_in(f) if id(cfg.stmt_of(c)) in cfg.reachable(first, no_exc=True) and cfg.stmt_of(c) is not first and
+                 not (isinstance(c.func, ast.Name) and c.func.id in ('set', 'list', 'dict', 'isinstance', 'len'))]
+        if not after:
+            continue
+        n += 1
+        bad = []
+        for c in after:
+            trys = enclosing_trys(c, f.node)
+            resets = any(any(isinstance(a, ast.Assign) and any(isinstance(t, ast.Attribute) and t.attr == memo for t in a.targets) and
+                             isinstance(a.value, ast.Constant) and a.value.value is None for st in h.body for a in ast.walk(st)) and
+                         any(isinstance(st, ast.Raise) for st in h.body) for t_ in trys for h in t_.handlers)
+            if not resets:
+                bad.append(c)
+        chk.ob('R08.11', f'{f.qn} :: a failed conversion does not leave a half-built document in self.{memo}', not bad,
+               f'every call made after `{norm(first)[:50]}` sits in a try whose handler resets self.{memo} and re-raises' if not bad else
+               f'`{norm(first)[:50]}` is stored before `{norm(bad[0])[:40]}` runs: when that raises, the next caller of to_node() gets the empty document - an epytext docstring '
+               'whose fields are indented unevenly renders as an empty <div>, its summary as "Broken summary", and nothing is reported', repo.loc(f.mod, first))
+    if n < 1:
+        raise AnalysisError('R08.11: no memoising to_node() that stores its document before converting was found (1 confirmed: ParsedEpytextDocstring.to_node)')
+    chk.require('R08.11', 1)
